@@ -181,7 +181,15 @@ pub fn rich_dump(r: &mut Rng, prop: &str, seed: u64, profile: &str, benign_fault
             let pages = (len + 0x1fff) / 0x1000;
             let start = b.add_anon(pages * 0x1000, "rw-p", r.next(), 1);
             let off = r.below(pages * 0x1000 - len + 1);
-            opts.app_memory.push((start + off, len));
+            if r.chance(1, 5) && len > 1 {
+                // runs past the end of its mapping into unmapped memory: the copy is partial
+                opts.app_memory.push((start + pages * 0x1000 - (len / 2).max(1), len));
+                if !tags.iter().any(|t| t == "appmem-crosses-end") {
+                    tags.push("appmem-crosses-end".into());
+                }
+            } else {
+                opts.app_memory.push((start + off, len));
+            }
         }
         tags.push("appmem".into());
     }
@@ -218,8 +226,15 @@ pub fn rich_dump(r: &mut Rng, prop: &str, seed: u64, profile: &str, benign_fault
         tags.push("directauxv".into());
     }
     let mut events = Vec::new();
-    let faults = Vec::new();
+    let mut faults = Vec::new();
     if benign_faults {
+        reader_knob(r, &mut faults, &mut tags);
+        if r.chance(1, 6) {
+            // the writer process is interrupted by a signal of its own: std retries these
+            let kind = *r.pick(&[CallKind::Read, CallKind::Open, CallKind::Waitpid, CallKind::Nanosleep]);
+            faults.push(FaultRule { trig: Trigger { kind, nth: r.below(20) as u32, path: None }, effect: Effect::Errno(4), times: r.range(1, 3) as u32, exotic: false });
+            tags.push("eintr".into());
+        }
         if r.chance(1, 3) {
             opts.failspots = r.below(32) as u8;
             if opts.failspots != 0 {
@@ -392,6 +407,23 @@ fn small_rich(r: &mut Rng, prop: &str, seed: u64, profile: &str) -> Scenario {
         sc.tags[0] = "thr-small".into();
     }
     sc
+}
+
+/// swarm knob: which remote-read strategy the writer ends up with
+/// (process_vm_readv unavailable -> /proc/pid/mem; that unavailable too -> PTRACE_PEEKDATA)
+pub fn reader_knob(r: &mut Rng, faults: &mut Vec<FaultRule>, tags: &mut Vec<String>) {
+    match r.below(8) {
+        0 => {
+            faults.push(FaultRule { trig: Trigger { kind: CallKind::Vmreadv, nth: 0, path: None }, effect: Effect::Errno(38), times: 1_000_000, exotic: false });
+            tags.push("reader:proc-mem".into());
+        }
+        1 => {
+            faults.push(FaultRule { trig: Trigger { kind: CallKind::Vmreadv, nth: 0, path: None }, effect: Effect::Errno(1), times: 1_000_000, exotic: false });
+            faults.push(FaultRule { trig: Trigger { kind: CallKind::Open, nth: 0, path: Some("/mem".into()) }, effect: Effect::Errno(13), times: 1_000_000, exotic: false });
+            tags.push("reader:peekdata".into());
+        }
+        _ => {}
+    }
 }
 
 fn plain_cfg(nthreads: usize, nlibs: usize) -> WorldCfg {
@@ -604,6 +636,19 @@ fn gen_c04(r: &mut Rng, seed: u64) -> Scenario {
             tags.push("foreign-tracer".into());
         }
     }
+    if r.chance(1, 5) {
+        // unusual, non-null stack pointers: such threads are still ordinary threads
+        let ti = r.below(n as u64) as usize;
+        if b.world.threads[ti].program == Program::Parked {
+            b.world.threads[ti].regs[R_RSP] = *r.pick(&[u64::MAX, 1, 8, 0x1000, u64::MAX - 7, 0xffff_8000_0000_0000]);
+            tags.push("odd-sp".into());
+        }
+    }
+    if r.chance(1, 12) && n > 1 && opts.blamed != PID {
+        b.world.threads[0].zombie = true;
+        b.world.threads[0].program = Program::Parked;
+        tags.push("zombie-leader".into());
+    }
     // stop behaviour
     match r.below(6) {
         0 => {
@@ -659,6 +704,11 @@ fn gen_c04(r: &mut Rng, seed: u64) -> Scenario {
         tags.push(format!("exits:{}", phases.join("/")));
     }
     let mut sc = simple_dump_scenario("C04", seed, "c04-threads", b, opts);
+    reader_knob(r, &mut sc.faults, &mut tags);
+    if r.chance(1, 10) && n > 1 {
+        events.push(Event { trig: Trigger { kind: CallKind::PtraceAttach, nth: r.below(n as u64) as u32, path: None }, what: EventKind::Spawn { tid: PID + 900 } });
+        tags.push("spawn-during-dump".into());
+    }
     sc.events = events;
     sc.sched.steps_per_call = r.range(1, 7) as u32;
     sc.tags = tags;
@@ -733,6 +783,9 @@ fn gen_c06(r: &mut Rng, seed: u64, idx: u64) -> Scenario {
         tags.push(if ti >= 20 { "crash-late-thread".into() } else { "crash".into() });
     }
     let mut sc = simple_dump_scenario("C06", seed, if sweep { "c06-sp-offset-sweep" } else { "c06-random" }, b, opts);
+    if !sweep {
+        reader_knob(r, &mut sc.faults, &mut tags);
+    }
     sc.tags = tags;
     sc
 }
@@ -756,10 +809,11 @@ fn gen_c07(r: &mut Rng, seed: u64) -> Scenario {
         };
         let pages = (len + 0xfff) / 0x1000 + 1;
         let start = b.add_anon(pages * 0x1000, "rw-p", r.next(), 1);
-        let ptr = match r.below(4) {
+        let ptr = match r.below(6) {
             0 => start,
             1 => start + pages * 0x1000 - len,     // ends exactly at the mapping end (hole follows)
             2 => start + pages * 0x1000 - len - 1, // one byte before the end
+            3 if len > 1 => start + pages * 0x1000 - (len / 2).max(1), // crosses the end: partial copy
             _ => start + r.below(pages * 0x1000 - len + 1),
         };
         opts.app_memory.push((ptr, len));
@@ -777,7 +831,14 @@ fn gen_c07(r: &mut Rng, seed: u64) -> Scenario {
         let rsp = ss + sl / 2 + r.below(sl / 16) * 8;
         let m = r.pick(&b.modules);
         let (lo, hi) = (m.base, m.base + m.image.mapped_len);
-        let (rip, pos) = match r.below(8) {
+        // two different anonymous mappings back to back
+        let adj_a = b.add_anon(0x2000, "rw-p", r.next(), 2);
+        let adj_b = b.add_anon(0x2000, "r-xp", r.next(), 0);
+        let _ = adj_a;
+        let (rip, pos) = match r.below(11) {
+            8 => (adj_b, "adjacent-start"),
+            9 => (adj_b - 1, "adjacent-end-1"),
+            10 => (adj_b + 0x2000 - 1, "adjacent-last-byte"),
             0 => (lo, "start"),
             1 => (lo + 127, "start+127"),
             2 => (lo + 128, "start+128"),
@@ -789,7 +850,14 @@ fn gen_c07(r: &mut Rng, seed: u64) -> Scenario {
         opts.crash = Some(crash_spec(r, tid, rsp, rip));
         tags.push(format!("ip-{}", pos));
     }
+    if r.chance(1, 4) {
+        opts.size_limit = size_limit_choice(r, n);
+        if opts.size_limit.is_some() {
+            tags.push("limit".into());
+        }
+    }
     let mut sc = simple_dump_scenario("C07", seed, "c07-memory-list", b, opts);
+    reader_knob(r, &mut sc.faults, &mut tags);
     sc.tags = tags;
     sc
 }
@@ -893,6 +961,7 @@ fn gen_c20(r: &mut Rng, seed: u64) -> Scenario {
         tags.push("crash".into());
     }
     let mut sc = simple_dump_scenario("C20", seed, "c20-stack-filter", b, opts);
+    reader_knob(r, &mut sc.faults, &mut tags);
     sc.tags = tags;
     sc
 }
@@ -1331,6 +1400,7 @@ fn gen_c18(r: &mut Rng, seed: u64) -> Scenario {
         _ => {}
     }
     let mut sc = simple_dump_scenario("C18", seed, "c18-streams", b, opts);
+    reader_knob(r, &mut sc.faults, &mut tags);
     sc.events = events;
     if r.chance(1, 3) {
         sc.sched.read_chunk = *r.pick(&[1u64, 7, 64, 1000]);
@@ -1677,6 +1747,18 @@ fn gen_c03(r: &mut Rng, seed: u64) -> Scenario {
         b.world.threads[ti].foreign_tracer = true;
         tags.push("foreign-tracer".into());
     }
+    if r.chance(1, 8) && n > 1 {
+        let ti = r.range(1, n as u64 - 1) as usize;
+        if tid_of(ti) != opts.blamed {
+            b.world.threads[ti].regs[R_RSP] = 0;
+            tags.push("sandbox-thread".into());
+        }
+    }
+    if r.chance(1, 12) && n > 1 && opts.blamed != PID {
+        b.world.threads[0].zombie = true;
+        b.world.threads[0].program = Program::Parked;
+        tags.push("zombie-leader".into());
+    }
     let mut faults = Vec::new();
     match r.below(8) {
         0 => {
@@ -1773,9 +1855,11 @@ pub fn c03_sweep(sc: &Scenario, res: &crate::run::RunResult, limit: usize) -> Ve
         (label, s2)
     };
     // state-neutral errno failures of kernel calls
-    let neutral: [(K, &[i32]); 13] = [
-        (K::Open, &[2, 13, 24]),
-        (K::Read, &[5, 3]),
+    let neutral: [(K, &[i32]); 15] = [
+        (K::Open, &[2, 13, 24, 4]),
+        (K::Read, &[5, 3, 4]),
+        (K::PtraceGetregs, &[5, 3]),
+        (K::Nanosleep, &[4]),
         (K::Opendir, &[2, 24]),
         (K::Readdir, &[5]),
         (K::Statx, &[2]),
@@ -2144,7 +2228,45 @@ pub fn generate(prop: &str, verif_seed: u64, idx: u64) -> Scenario {
                     sc.tags.push("failed-request".into());
                 }
                 let evolve = r.coin();
-                for _ in 1..n {
+                let lib_names: Vec<B> = {
+                    let mut v: Vec<B> = Vec::new();
+                    for g in &sc.world.regions {
+                        if g.name.0.starts_with(b"/usr/lib/libsim") && !v.contains(&g.name) {
+                            v.push(g.name.clone());
+                        }
+                    }
+                    v
+                };
+                let mut unmap_at: Option<usize> = None;
+                if !lib_names.is_empty() && r.chance(1, 3) {
+                    // the principal mapping is a library that is unloaded between two requests;
+                    // some threads hold pointers into it
+                    let victim = r.pick(&lib_names).clone();
+                    if let Some(g) = sc.world.regions.iter().find(|g| g.name == victim) {
+                        let lo = g.start;
+                        p.opts.skip_unref = true;
+                        p.opts.principal = Some(lo + 0x10);
+                        for t in sc.world.threads.iter() {
+                            if r.coin() {
+                                let sp = t.regs[R_RSP];
+                                sc.world.plants.push(((sp + 7) & !7, lo + 0x20 + r.below(0x800)));
+                            }
+                        }
+                        unmap_at = Some(r.below(n as u64 - 1) as usize);
+                        sc.tags.push("principal-unloaded".into());
+                        let k = unmap_at.unwrap();
+                        while p.between.len() <= k {
+                            p.between.push(Vec::new());
+                        }
+                        p.between[k].push(EventKind::UnmapNamed { name: victim });
+                    }
+                }
+                let prefilled = p.between.len();
+                let _ = unmap_at;
+                for bi in 1..n {
+                    if bi - 1 < prefilled {
+                        continue;
+                    }
                     let mut evs = Vec::new();
                     if evolve {
                         for _ in 0..r.below(3) {
